@@ -126,6 +126,14 @@ func verifBrokerScenario(P, C int, rogue bool, symNAT bool) {
 					var r2 []byte
 					i.ProxyAnswers(messages.Arg{Body: []byte{byte(p)}}, &r2)
 					polls[p].answered = true
+					// a (misbehaving or retrying) proxy may post its answer again
+					for k := 0; k < verifapi.Param("extra_answers", 0); k++ {
+						if !verifapi.Bool("proxy.answersAgain") {
+							break
+						}
+						var r3 []byte
+						i.ProxyAnswers(messages.Arg{Body: []byte{byte(p)}}, &r3)
+					}
 					polls[p].ansOK = len(r2) == 1 && r2[0] == 'S'
 				}
 			}
